@@ -105,8 +105,18 @@ Definition spec_C01 (i o : term) : bool :=
       else true
     else negb (String.eqb (gs (gn o 0)) "panic")
   else if String.eqb op "ser" then
+    (* a units-well-formed profile can be written; the bytes written for a valid one parse back (in the
+       model's parser) to the normalised profile, whatever else the process was doing at the time *)
     let p := profile_of (gn i 1) in
-    if units_wf_b p then String.eqb (gs (gn o 0)) "ok" else true
+    if units_wf_b p then
+      String.eqb (gs (gn o 0)) "ok" &&
+      (if valid_b p then
+         match parse_uncompressed (bs_of (gn o 1)) with
+         | Ok q => term_eqb (of_profile q) (of_profile (normalize p))
+         | _ => false
+         end
+       else true)
+    else true
   else if String.eqb op "driverproto" then
     (* pprof -proto re-read shows the same samples: frames, values, labels *)
     let p := profile_of (gn i 1) in
